@@ -423,9 +423,16 @@ pub fn run_c16(args: &Args) -> Report {
             lines[0] = lines[0].trim_start().to_string();
             with_tag = rng.chance(1, 3);
             let mut exp: Vec<String> = vec![];
+            // sometimes a second stored tag whose NAME occurs in the text stored for the first: substituted text is inert too
+            let two_tags = with_tag && rng.chance(1, 2);
             if with_tag {
                 src_lines.push("@@TXTPP#tag TAG1".to_string());
-                src_lines.push("@@TXTPP#write stored".to_string());
+                src_lines.push(if two_tags { "@@TXTPP#write stored TAG2 end".to_string() } else { "@@TXTPP#write stored".to_string() });
+            }
+            if two_tags {
+                // another prefix: a line starting with `@@` would continue the write block above
+                src_lines.push("%%TXTPP#tag TAG2".to_string());
+                src_lines.push("%%TXTPP#write two".to_string());
             }
             let pre = *rng.pick(&["-", "-", "//", "# ", "» ", "§", "é"]);
             src_lines.push(format!("{pre}TXTPP#write {}", lines[0]));
@@ -439,7 +446,10 @@ pub fn run_c16(args: &Args) -> Report {
             exp.extend(lines.iter().cloned());
             // what follows the block: an ordinary line that must end the directive and be copied
             let mut follow = String::new();
-            if with_tag {
+            if with_tag && two_tags {
+                src_lines.push("use TAG1 and TAG2.".to_string());
+                follow = "use stored TAG2 end and two.".to_string();
+            } else if with_tag {
                 src_lines.push("use TAG1.".to_string());
                 follow = "use stored.".to_string();
             } else if rng.chance(1, 2) {
